@@ -145,7 +145,8 @@ def eval_ocaml_metric(ck, name, cases):
         parts = ln.split()
         if len(parts) < 2:
             continue
-        short[int(parts[0])] = (parts[1][0] == "1", parts[1][1] == "1")   # (analyze_m15, m15_representable) of the model
+        # (analyze_m15, m15_representable, number of label-filter stages) computed by the model on the dumped AST
+        short[int(parts[0])] = (parts[1][0] == "1", parts[1][1] == "1", int(parts[1][2:]))
         res[int(parts[0])] = [None if p == "-" else bytes.fromhex(p) for p in parts[2:]]
     return res, short, out
 
@@ -178,7 +179,7 @@ def compare_metric(ck, cases, name="logqlm", shard=4000):
         for c in part:
             got = res.get(c["id"])
             want = observed(c)
-            c["m15"], c["m15_spec"] = short.get(c["id"], (None, None))
+            c["m15"], c["m15_spec"], c["n_label_filters"] = short.get(c["id"], (None, None, None))
             if got != want:
                 d = ""
                 for a, b in zip(got or [None], want):
